@@ -111,7 +111,7 @@ let starts (p : string) (s : string) : bool =
   String.length s >= String.length p && String.sub s 0 (String.length p) = p
 
 (* proven bound on the BMP-layer allocation cost of serve (Properties/C27.v) *)
-let cost_bound (l : int) (frames : int) : int = 6 * l + 5800 * (frames + 1)
+let cost_bound (l : int) (frames : int) : int = 8 * l + 5800 * (frames + 1)
 
 let mism = ref 0 and compared = ref 0
 let mismatch id fmt = Printf.ksprintf (fun s -> incr mism; Printf.printf "CORR-MISMATCH case=%s %s\n" id s) fmt
